@@ -63,7 +63,10 @@ def materialise(t):
         else:
             f["pages/sub/readme.txt"] = "a directory without index.md\n"
         if t["c"]:
-            f["pages/sub/c.md"] = page("Page C" if t["c"] == 1 else None, "CWORD [up](../index.html) [sub](index.html) " + LINKS)
+            f["pages/sub/c.md"] = page("Page C" if t["c"] == 1 else None, "CWORD [up](../index.html) [sub](index.html) " + LINKS
+                                       + (" [data](cdata/x.dat)" if t.get("ccopy") else ""), ["copy_subdir: cdata"] if t.get("ccopy") else [])
+        if t.get("ccopy"):
+            f["pages/sub/cdata/x.dat"] = "DATA"
         if t["stxt"]:
             f["pages/sub/d.txt"] = "data\n"
         if t.get("subassets"):
